@@ -78,11 +78,13 @@ func runC20(t *verifsim.Tape, cfg engine.Config) *engine.Outcome {
 		o.Violate("harness_panic", "harness_panic", "generated half runs in the gen engine")
 		return o
 	}
-	switch t.Pick("mode", 7, 2, 1) {
+	switch t.Pick("mode", 7, 2, 1, 2) {
 	case 1:
 		return runC20Canceler(t, cfg, o)
 	case 2:
 		return runC20Skip(t, cfg, o)
+	case 3: // samplers shared by concurrent tasks over simulated time
+		return runC19Adaptive(t, cfg, o)
 	}
 	h := sha256.New()
 	sim := verifsim.NewSim(t)
